@@ -1407,18 +1407,21 @@ def tie_C11(ctx):
     cases, meta = [], []
     for g in SERDE:
         info = GENS[g]
-        for i in range(ctx.scale(24, 300)):
+        # every (index, half_used) configuration is a snapshot point — an EXPLICIT grid (exact positions: k native words,
+        # then optionally one next_u32 leaving a pending half), followed by random positions / random histories
+        grid = []
+        if "blk" in info:
+            blk = info["blk"]
+            ks = list(range(0, blk + 2)) if ctx.thorough else [0, 1, 2, blk // 2 - 1, blk - 2, blk - 1, blk, blk + 1]
+            grid = [(k, half) for k in ks for half in ([False, True] if info["cls"] == "block64" else [False])]
+        for i in range(len(grid) + ctx.scale(24, 300)):
             seed = pick_seed(rng, info["seed"])
-            pre = history(rng, g, rng.randrange(0, 5)) if i % 3 else []
+            pre = history(rng, g, rng.randrange(0, 5)) if i % 3 and i >= len(grid) else []
             if "blk" in info:
-                # every (index, half_used) configuration is a snapshot point: index = k (mod 256)
-                ks = list(range(0, 258)) if ctx.thorough else [0, 1, 2, 127, 254, 255, 256, 257]
-                k = ks[i % len(ks)] if i % 2 == 0 else rng.randrange(0, 600)
+                k, half = grid[i] if i < len(grid) else (rng.randrange(0, 600), rng.random() < 0.5 and info["cls"] == "block64")
                 nat1 = "u64" if info["cls"] == "block64" else "u32"
-                pre = [nat1] * k + pre
-                if info["cls"] == "block64" and (i % 4 < 2):
-                    pre = pre + ["u32"]          # half-consumed word (half_used = true)
-                ctx.dist[f"{g}:index={k % 256 if k % 256 or k == 0 else 256}"] += 1
+                pre = [nat1] * k + (["u32"] if half else []) + pre
+                ctx.dist[f"{g}:index={k % info['blk'] if k % info['blk'] or k == 0 else info['blk']},half={half}"] += 1
             cont = history(rng, g, rng.randrange(2, 6))
             c = [f"new 0 {g} seed {seed.hex()}"] + op_lines(0, pre) + ["ser 0", "rt 1 0", "ser 0", "ser 1", "eq 0 1"]
             at = len(c) - 5
@@ -1462,6 +1465,30 @@ def tie_C11(ctx):
                      expected=img, actual=o[1])
         elif o[4] != "true" or o[5] != o[6] or o[7] != o[8]:
             ctx.fail("serde", f"{g}: restored generator differs from the original", c)
+    # snapshots in states that only a very long history reaches: ISAAC's a / b / c (block counter) at their maximum are injected
+    # through the image, the generator is driven across the block end (the counter wraps to 0) and the snapshot is taken at
+    # several read positions INSIDE the following blocks (with and without a pending half) — `c == 0` is a legitimate state again
+    far = []
+    for base in isaac_counter_extreme_cases(ctx, rng):
+        g = base[0].split()[2]
+        wsz = 4 if g == "IsaacRng" else 8
+        for k in (0, 1, 255, 256, 300):
+            for half in ([False, True] if g == "Isaac64Rng" else [False]):
+                c = [base[0], f"fill 0 {k * wsz}"] + (["u32 0"] if half else []) + \
+                    ["ser 0", "rt 1 0", "ser 1", "eq 0 1", f"{native(g)} 0", f"{native(g)} 1", "u32 0", "u32 1", f"fill 0 {2 * 256 * wsz}",
+                     f"fill 1 {2 * 256 * wsz}", "ser 0", "ser 1"]
+                far.append(c)
+                ctx.dist[f"{g}: snapshot after the block counter wrapped"] += 1
+    hf = ctx.real("snapshots in states reached only after a very long history (counter fields at their maximum, then wrapped)", far)
+    for c, o in zip(far, hf):
+        g = c[0].split()[2]
+        i = c.index("ser 0")
+        if o[0] in ("unsupported",) or o[i] in ("unsupported", "panic"):
+            continue
+        if o[i + 1] != "ok":
+            ctx.fail("serde", f"{g}: a snapshot taken after the block counter wrapped around cannot be restored", c, expected="ok", actual=o[i + 1]); continue
+        if o[i + 2] != o[i] or o[i + 3] not in ("true", "unsupported") or o[i + 4] != o[i + 5] or o[i + 6] != o[i + 7] or o[i + 8] != o[i + 9] or o[i + 10] != o[i + 11]:
+            ctx.fail("serde", f"{g}: the generator restored from a snapshot taken after the block counter wrapped does not continue like the original", c)
     # the same through a HUMAN-READABLE serde format (is_human_readable() = true; tools: harness/src/hrfmt.rs): a hand-written
     # Serialize/Deserialize may take another path there.  States with short words (leading zero digits), zero words, extremes.
     hr, hmeta = [], []
